@@ -27,7 +27,7 @@ Record cfg := mkCfg {
 }.
 Definition cfg_old : cfg := mkCfg false false false.
 Definition cfg_fixed : cfg := mkCfg true true true.
-Definition cfg_head : cfg := cfg_old.
+Definition cfg_head : cfg := cfg_fixed.
 
 (* ========================================================================================== *)
 (* Part 1: the forwarder pair.
